@@ -75,7 +75,20 @@ def gen_cases(rng, tier):
             else:
                 vals = gen_ratios(rng, ctx, n)
                 toks = ["n:" + rat(r) for r in vals]
-            ops.append(["q_alloc", f"{_qty.tok(rng, x)}@{u}", ",".join(toks), rng.choice(["0", "1", "1"]), mode])
+            disperse = rng.choice(["0", "1", "1"])
+            if rng.random() < .3:
+                # tight: few quanta over many nearly equal portions under a half
+                # mode, error dispersed (which portions are adjusted matters)
+                u = rng.choice(qunits)
+                mode = rng.choice([m for m in MODES if "HALF" in m])
+                n = rng.randint(5, 8)
+                x = rng.randint(1, 300) * ctx.quantum(u) * rng.choice([1, 1, -1])
+                vals = [Fraction(1)] * n
+                for _ in range(rng.randint(1, 2)):
+                    vals[rng.randrange(n)] = Fraction(rng.randint(2, 3))
+                toks = ["n:" + rat(r) for r in vals]
+                disperse = "1"
+            ops.append(["q_alloc", f"{_qty.tok(rng, x)}@{u}", ",".join(toks), disperse, mode])
         case = _qty.case_of(ctx, ops, ["allocate"])
         cases.append(case)
     return cases
